@@ -192,6 +192,9 @@ type Payload struct {
 	Header      *PayloadHeader `json:"header"`
 	Withdrawals []Withdrawal   `json:"withdrawals"`
 	EngineOK    bool           `json:"engine_ok"`
+	// list lengths bounded by the SSZ types of the payload
+	NTransactions int `json:"n_transactions"`
+	ExtraDataLen  int `json:"extra_data_len"`
 }
 
 // Block is the abstract block (see spec/BeaconBlock.tla).
@@ -359,7 +362,7 @@ func AbstractBlock(spec *common.Spec, env *common.BeaconBlockEnvelope, c *BlockC
 				ParentHash: e.ParentHash, FeeRecipient: e.FeeRecipient, StateRoot: e.StateRoot, ReceiptsRoot: e.ReceiptsRoot,
 				LogsBloom: e.LogsBloom, PrevRandao: e.PrevRandao, BlockNumber: e.BlockNumber, GasLimit: e.GasLimit, GasUsed: e.GasUsed,
 				Timestamp: e.Timestamp, ExtraData: e.ExtraData, BaseFeePerGas: e.BaseFeePerGas, BlockHash: e.BlockHash, TransactionsRoot: txRoot}),
-			Withdrawals: []Withdrawal{}, EngineOK: c.EngineOK}
+			Withdrawals: []Withdrawal{}, EngineOK: c.EngineOK, NTransactions: len(e.Transactions), ExtraDataLen: len(e.ExtraData)}
 	case *capella.BeaconBlockBody:
 		b.ForkBody = "capella"
 		randao, eth1, ps, as, atts, deps, exits = body.RandaoReveal, body.Eth1Data, body.ProposerSlashings, body.AttesterSlashings, body.Attestations, body.Deposits, body.VoluntaryExits
@@ -374,7 +377,7 @@ func AbstractBlock(spec *common.Spec, env *common.BeaconBlockEnvelope, c *BlockC
 				LogsBloom: e.LogsBloom, PrevRandao: e.PrevRandao, BlockNumber: e.BlockNumber, GasLimit: e.GasLimit, GasUsed: e.GasUsed,
 				Timestamp: e.Timestamp, ExtraData: e.ExtraData, BaseFeePerGas: e.BaseFeePerGas, BlockHash: e.BlockHash, TransactionsRoot: txRoot,
 				WithdrawalsRoot: wdRoot}),
-			Withdrawals: p.withdrawals(e.Withdrawals), EngineOK: c.EngineOK}
+			Withdrawals: p.withdrawals(e.Withdrawals), EngineOK: c.EngineOK, NTransactions: len(e.Transactions), ExtraDataLen: len(e.ExtraData)}
 	case *deneb.BeaconBlockBody:
 		b.ForkBody = "deneb"
 		randao, eth1, ps, as, atts, deps, exits = body.RandaoReveal, body.Eth1Data, body.ProposerSlashings, body.AttesterSlashings, body.Attestations, body.Deposits, body.VoluntaryExits
@@ -389,7 +392,7 @@ func AbstractBlock(spec *common.Spec, env *common.BeaconBlockEnvelope, c *BlockC
 				LogsBloom: e.LogsBloom, PrevRandao: e.PrevRandao, BlockNumber: e.BlockNumber, GasLimit: e.GasLimit, GasUsed: e.GasUsed,
 				Timestamp: e.Timestamp, ExtraData: e.ExtraData, BaseFeePerGas: e.BaseFeePerGas, BlockHash: e.BlockHash, TransactionsRoot: txRoot,
 				WithdrawalsRoot: wdRoot, BlobGasUsed: e.BlobGasUsed, ExcessBlobGas: e.ExcessBlobGas}),
-			Withdrawals: p.withdrawals(e.Withdrawals), EngineOK: c.EngineOK}
+			Withdrawals: p.withdrawals(e.Withdrawals), EngineOK: c.EngineOK, NTransactions: len(e.Transactions), ExtraDataLen: len(e.ExtraData)}
 		b.NCommitments = len(body.BlobKZGCommitments)
 	default:
 		return nil, fmt.Errorf("absstate: unsupported block body %T", env.Body)
